@@ -56,6 +56,7 @@ type c04Desc struct {
 	To      int      `json:"to"`
 	NonCall bool     `json:"noncall"` // the non-call frame family instead of method strings
 	Sample  []string `json:"sample"`
+	Params  bool     `json:"params,omitempty"` // the parameter-shape family: representative method strings x every shape of the "parameters" member
 }
 
 type c04State struct {
@@ -136,6 +137,18 @@ var c04Names = []string{"a", "a.b", "a.b.c", "b", "org.varlink", "é.x", "org.va
 var c04NonCalls = []string{`[]`, `5`, `"s"`, `{"method":5}`, `{"method":["a.b"]}`, `{"method":{"a":"b"}}`, `{"method":true}`, `true`, ``, `{`, `{"method":"a.M"`, `{"method":"a.M"}}`, "\xff", `{"method":"a.M","oneway":"yes"}`, `[{"method":"a.M"}]`,
 	`null`, `{}`, `{"method":null}`, `{"Method":"a.M"}`, `{"method":"a.M","method":"b.M"}`, `{"method":"a.M","extra":[1,2]}`}
 
+// c04ParamShapes: what a caller may put in the "parameters" member ("" = member absent). The routing rule
+// reads the method string alone, so none of these may change where a call goes or which standard error answers it.
+var c04ParamShapes = []string{"", `null`, `{}`, `[1,2]`, `"text"`, `7`, `true`, `{"interface":42}`, `{"interface":"a"}`, `{"method":"b.M"}`, `[]`, `{"a":{"b":[null]}}`}
+
+// c04ParamMethods: one or more method strings per routing outcome, near misses included
+func c04ParamMethods() []string {
+	out := []string{"M", "", ".M", "a.M", "a.", "a.b.M", "a.b.c.M", "b.GetInfo", "zz.M", "org.varlink.M", "org.varlink.servicex.M", "é.x.M",
+		"org.varlink.service.Nope", "org.varlink.service.", "org.varlink.service.getinfo", "org.varlink.service.GetInfos", "org.varlink.service.GetInterfaceDescriptions",
+		"org.varlink.service.Ping", "org.varlink.service.GetInfo", "org.varlink.Service.GetInfo", "org.varlink.service.x.GetInfo"}
+	return out
+}
+
 func c04Body(d c04Desc, tier string) func() {
 	return func() {
 		w := newWorld()
@@ -210,6 +223,37 @@ func c04Body(d c04Desc, tier string) func() {
 			return
 		}
 		p := &rawPeer{c: c}
+		if d.Params {
+			for _, m := range c04ParamMethods() {
+				for _, ps := range c04ParamShapes {
+					log = log[:0]
+					mb, _ := json.Marshal(m)
+					f := `{"method":` + string(mb)
+					if ps != "" {
+						f += `,"parameters":` + ps
+					}
+					c.Write([]byte(f + "}\x00"))
+					r, ok := p.readFrame()
+					st.calls++
+					if !ok {
+						fail("method %q with parameters %s: the connection ended without a reply (got %q)", m, ps, r)
+						break
+					}
+					if len(p.rest) != 0 {
+						fail("method %q with parameters %s: more than one reply: extra bytes %q", m, ps, p.rest)
+						break
+					}
+					kind, arg := refRoute(m, set)
+					st.kinds[kind]++
+					checkReply(fail, m+" parameters="+ps, r, kind, arg, log)
+				}
+				if st.fail != "" {
+					break
+				}
+			}
+			st.done = true
+			return
+		}
 		ms := c04Methods(tier)
 		for _, m := range ms[d.From:d.To] {
 			log = log[:0]
@@ -334,6 +378,8 @@ func scenariosC04(tier string) []Scen {
 			d := c04Desc{Set: set, From: from, To: to, Sample: ms[from:min(from+3, to)]}
 			out = append(out, Scen{Desc: d, Bound: 0, Horizon: 5000000, Body: c04Body(d, tier), Check: c04Check, Obs: c04Obs, Cases: c04Cases})
 		}
+		dp := c04Desc{Set: set, Params: true}
+		out = append(out, Scen{Desc: dp, Bound: 0, Horizon: 5000000, Body: c04Body(dp, tier), Check: c04Check, Obs: c04Obs, Cases: c04Cases})
 		d := c04Desc{Set: set, NonCall: true}
 		b := 0
 		if len(set) <= 1 {
